@@ -662,6 +662,7 @@ class StrainEnergy:
         self.params = StrainEnergyParameters()
         self._unrotated_cMatrix_4th = np.zeros((3,3,3,3))
         self._unrotated_cPrec_4th = np.zeros((3,3,3,3))
+        self._unrotated_appliedStress = np.zeros((3,3))
         self.rotation = np.eye(3)
         self.rotationPrec = np.eye(3)
         
@@ -959,6 +960,11 @@ class StrainEnergy:
             self.params.appliedStress = stress
         else:
             raise ValueError("Applied stress must be scalar, 3-length vector of 3x3 matrix")
+        #Keep the stress as supplied: update() rotates it together with the matrix tensor (rotating the stored, already rotated stress
+        #   again on every update made the result depend on the order and number of setter calls)
+        self._unrotated_appliedStress = np.array(self.params.appliedStress)
+        if self._unrotated_cMatrix_4th.any():
+            self.update()
 
     def _computeAppliedStrain(self, cM2, stress):
         '''
@@ -991,7 +997,7 @@ class StrainEnergy:
                 self.params.cPrec_4th = self.params.cMatrix_4th
                 self.params.cPrec_2nd = self.params.cMatrix_2nd
 
-            self.params.appliedStress = rotateRank2Tensor(self.rotation, self.params.appliedStress)
+            self.params.appliedStress = rotateRank2Tensor(self.rotation, self._unrotated_appliedStress)
             self.params.appliedStrain = self._computeAppliedStrain(self.params.cMatrix_2nd, self.params.appliedStress)
 
         # If matrix elastic constants are not set, then default to constant strain energy
